@@ -51,6 +51,14 @@ def smapFit (K : Kernel X Wt α μ) (cfg : SearchCfg μ θ) (th0 : θ)
     (_s : SMapState Wt) (xys : List (X × Nat)) : SMapState Wt :=
   smapPartialFit K cfg th0 {} xys
 
+/-- `SimpleARTMAP.fit(X, y, max_iter = epochs)`: the A-side and the map start fresh, every epoch
+presents the whole stream again and overwrites `labels_a[i]`; weights, counters and the map carry over
+from epoch to epoch. -/
+def smapFitEpochs (K : Kernel X Wt α μ) (cfg : SearchCfg μ θ) (th0 : θ) (epochs : Nat)
+    (xys : List (X × Nat)) : SMapState Wt :=
+  (List.range epochs).foldl
+    (fun s _ => smapPartialFit K cfg th0 { s with a := { s.a with labels := [] }, labelsB := [] } xys) {}
+
 /-- `SimpleARTMAP.step_pred`: `(c_a, map[c_a])`. -/
 def smapStepPred (K : Kernel X Wt α μ) (s : SMapState Wt) (x : X) : Option (Nat × Nat) :=
   match stepPred K s.a.W x with
